@@ -250,6 +250,16 @@ func main() {
 		if job.ThoroughOnly && ti == 0 {
 			continue
 		}
+		// development aids (never set by registered commands): restrict to one job, override case count / shards
+		if j := os.Getenv("VERIF_DEV_JOB"); j != "" && j != job.Name {
+			continue
+		}
+		if v, err := strconv.Atoi(os.Getenv("VERIF_DEV_CHECKS")); err == nil && v > 0 {
+			job.Checks[ti] = v
+		}
+		if v, err := strconv.Atoi(os.Getenv("VERIF_DEV_SHARDS")); err == nil && v > 0 {
+			job.Shards[ti] = v
+		}
 		jw := filepath.Join(work, fmt.Sprintf("job%d", ji))
 		os.MkdirAll(jw, 0o755)
 		jenv := append([]string{}, env...)
